@@ -147,7 +147,7 @@ def judge(ctx, case):
         ctx.violation("plot", "outline-patch-count", case, "%d outlines for %d boundary curves" % (len(outlines), len(curves)), where)
         return
     size = max(1.0, max(abs(float(v)) for c in curves for s in c for p in s for v in p))
-    tol = 2e-6 * max(1.0, size / 1e3)
+    tol = 2e-6 + 1e-12 * size
 
     def find_curve(sub, candidates):
         for i, c in enumerate(candidates):
@@ -212,7 +212,8 @@ def judge(ctx, case):
 def cases(draw):
     nk, deg = draw(st.sampled_from([("int", (1,)), ("frac", (1,)), ("float", (1,)), ("float", (1, 2)), ("float", (2,)), ("float", (1, 2, 3)),
                                     ("float", (3,)), ("frac", (1, 2, 3)), ("float", (2, 3)), ("int", (1, 3))]))
-    return {"spec": draw(S.shape_spec(nk, deg, templates=True))}
+    far = draw(st.sampled_from([(0.0, 0.0), (0.0, 0.0), (12345.0, -2345.0), (-20480.0, 10240.0), (500.0, 7000.0)]))
+    return {"spec": draw(S.shape_spec(nk, deg, center=far, templates=(far == (0.0, 0.0))))}
 
 
 def parts(tier):
